@@ -18,6 +18,14 @@ PROP_MODULES = {
     "C20": ["Tramp.Props.C20"],
     "C17": ["Tramp.Props.C17"],
     "C19": ["Tramp.Props.C19"],
+    "C01": ["Tramp.Props.C01"],
+    "C02": ["Tramp.Props.C02", "Tramp.Props.C15", "Tramp.Props.C16"],
+    "C03": ["Tramp.Props.C03", "Tramp.Props.C12"],
+    "C04": ["Tramp.Props.C04", "Tramp.Props.C20"],
+    "C05": ["Tramp.Props.C05"],
+    "C07": ["Tramp.Props.C07"],
+    "C08": ["Tramp.Props.C08"],
+    "C11": ["Tramp.Props.C11"],
 }
 
 # property -> theorem names (in namespace Tramp) = the proof obligations
@@ -41,6 +49,17 @@ OBLIGATIONS = {
     "C15": ["pstep_inv", "c15_some", "c15_none", "c15_err_only_on_fault", "c15_codes", "c15_pinned_counterexample"],
     "C16": ["pstep_inv", "c16_ok", "c16_err", "c16_pinned_counterexample"],
     "C17": ["c17_chunking", "c17_chunking_from_start", "c17_roundtrip", "c17_writer", "c17_dispatch"],
+    "C01": ["sstep_inv", "estep_inv", "c01_resolve_key", "c01_key_valid", "c01_pay_is_entry_invoice", "c10_hash_eq"],
+    "C02": ["sstep_inv", "c02_fail_only_when_quiet", "c02_live_means_held_or_settled", "c02_restart_settles",
+            "c02_readfault_counterexample", "c15_none", "c16_err"],
+    "C03": ["sstep_inv", "estep_inv", "c03_pay_args", "c03_stay_held", "c03_ready_is_fee_test", "c12_sound"],
+    "C04": ["sstep_inv", "estep_inv", "c04_bound", "c04_params", "c04_height", "c04_carried", "c04_unchanged",
+            "c04_low_expiry_rejects", "c20_max"],
+    "C05": ["sstep_inv", "c05_pay_only_when_quiet", "c05_never_again"],
+    "C07": ["sstep_inv", "estep_inv", "c07_same_response", "c07_reject_sticks", "c07_reject_no_pay", "c07_single_shot"],
+    "C08": ["sstep_inv", "c08_write_ahead", "c08_marker_while_paying", "c08_pending_before_pay",
+            "c08_free_only_when_quiet", "c08_succeeded_preimage"],
+    "C11": ["c11_timeout_fails", "c11_not_before", "c11_fresh_deadline", "c11_restart_budget", "c11_ttf_sources"],
     "C19": ["c19_iff", "c19_refuses_deltas", "c19_faithful", "c19_retry_cap"],
     "C20": ["c20_max", "c20_monotone", "c20_poll_catches_up", "c20_serve_truthful", "c20_timer_armed", "c20_timer_fires"],
 }
@@ -54,6 +73,7 @@ SUITES = {
     "height": {"profiles": ["dev"]},
     "wire": {"profiles": ["dev"]},
     "e2e": {"profiles": ["dev"], "needs_repo_bin": True},
+    "system": {"profiles": ["dev"]},
 }
 
 # property -> suites whose correspondence it depends on
@@ -67,6 +87,14 @@ PROP_SUITES = {
     "C20": ["height"],
     "C17": ["wire", "e2e"],
     "C19": ["e2e", "provider"],
+    "C01": ["system", "classify"],
+    "C02": ["system", "provider"],
+    "C03": ["system", "fee"],
+    "C04": ["system", "height"],
+    "C05": ["system", "provider"],
+    "C07": ["system"],
+    "C08": ["system"],
+    "C11": ["system"],
 }
 
 # protocol op -> properties that a model/implementation divergence on that op un-proves
@@ -77,6 +105,7 @@ OP_PROPS = {
     "fs": ["C12", "C03", "C06", "C07", "C04"], "ef": ["C12", "C11", "C06"],
     "cl": ["C10", "C13", "C01", "C06"],
     "hw": ["C20", "C04"], "wf": ["C17"], "wd": ["C17", "C06"],
+    "sy": ["C01", "C02", "C03", "C04", "C05", "C06", "C07", "C08", "C09", "C11", "C12", "C13", "C14"],
     "cf": ["C19"], "hx": ["C06", "C13"],
     "pw": ["C15", "C16", "C02", "C05", "C08"], "pa": ["C16", "C19", "C03", "C04"],
 }
